@@ -5,6 +5,13 @@ CONSTANTS
  RampIds = {"r1"}
  DestIds = {"d1", "d2"}
  InvalTable <- MCInvalTable
+ UseImplTable = FALSE
+ InvAddNode = {}
+ InvAddNodes = {}
+ InvAddLink = {}
+ InvAddLinks = {}
+ InvAddOrigin = {}
+ InvAddDestination = {}
  NameOf <- MCNameOf
  InvalImplicitNodes = FALSE
  DestNameWrite = TRUE
